@@ -248,7 +248,7 @@ sinh cosh tanh cbrt hypot ldexp frexp modf llround lround nearbyint rint isatty 
 dup dup2 fdopen close open read write dlopen dlsym dlclose dlerror usleep nanosleep memchr strcpy strncpy strcat strdup qsort rand srand random srandom
 __cxa_allocate_exception __cxa_throw __cxa_begin_catch __cxa_end_catch __cxa_rethrow __cxa_free_exception
 __cxa_guard_acquire __cxa_guard_release __cxa_guard_abort __cxa_atexit __cxa_pure_virtual __cxa_bad_cast __cxa_bad_typeid
-__cxa_throw_bad_array_new_length __dynamic_cast _Unwind_Resume
+__cxa_throw_bad_array_new_length __dynamic_cast _Unwind_Resume __atomic_load_1
 '''.split())
 
 STD_RENDER_OK = re.compile(r'^std::(move|forward|min|max|addressof|__addressof)<')
